@@ -278,16 +278,53 @@ def grid_cases(nlam):
 # ------------------------------------------------------------------ running the implementations
 
 
-def run_native(pi, q, lam):
+_HELD = {"n": 0, "prev": None}
+
+
+def _strided(t, how):
+    """the same values as a NON-contiguous 1-d view (a column of a table, every other element of a
+    buffer): the solver takes tensors, not memory layouts"""
+    import torch
+
+    if how == 1:
+        tab = torch.empty((t.shape[0], 2), dtype=t.dtype)
+        tab[:, 0] = t
+        tab[:, 1] = 7.0
+        return tab[:, 0]
+    buf = torch.full((2 * t.shape[0],), -3.0, dtype=t.dtype)
+    buf[0::2] = t
+    return buf[0::2]
+
+
+def run_native(pi, q, lam, layout=None):
     import tak_ext
 
+    _HELD["n"] += 1
+    k = _HELD["n"] % 5 if layout is None else layout
+    if k == 1:
+        pi, q = _strided(pi, 1), _strided(q, 1)
+    elif k == 3:
+        pi, q = _strided(pi, 2), q
     try:
         out = tak_ext.solve_policy(pi, q, lam)
     except RuntimeError:
         return "raised"
     except Exception as e:  # noqa
         return "crash " + type(e).__name__
-    return tensor_hex(out)
+    res = tensor_hex(out)
+    # the answer to the PREVIOUS call is still what it was (a result is a value, not a view of a
+    # buffer the next call reuses)
+    prev = _HELD["prev"]
+    if prev is not None:
+        try:
+            now = tensor_hex(prev[0])
+        except Exception:  # noqa
+            now = None
+        if now != prev[1]:
+            _HELD["prev"] = (out, res)
+            return "result-of-previous-call-changed"
+    _HELD["prev"] = (out, res)
+    return res
 
 
 def run_python(pi, q, lam):
@@ -304,7 +341,10 @@ def run_python(pi, q, lam):
 
 def run_case(c):
     pi, q = hex_tensor(c["pi"]), hex_tensor(c["q"])
-    c["native"] = run_native(pi.clone(), q.clone(), c["lam"])
+    if "layout" not in c:
+        _HELD["n"] += 1
+        c["layout"] = _HELD["n"] % 5  # 1, 3: non-contiguous views of the same values
+    c["native"] = run_native(pi.clone(), q.clone(), c["lam"], c["layout"])
     c["python"] = run_python(pi.clone(), q.clone(), c["lam"])
     return c
 
@@ -421,13 +461,15 @@ def mismatches(c):
 
 def replay_of(c):
     r = {"lam": f32hex(c["lam"]), "pi": c["pi"], "q": c["q"]}
+    if c.get("layout") in (1, 3):
+        r["layout"] = c["layout"]
     if c.get("history"):
         r["history"] = c["history"]  # the calls made just before this one, oldest first
     return r
 
 
 def case_of(r):
-    return {"label": "replay", "lam": hex_f32(r["lam"]), "pi": list(r["pi"]), "q": list(r["q"]), "K": len(r["pi"])}
+    return {"label": "replay", "lam": hex_f32(r["lam"]), "pi": list(r["pi"]), "q": list(r["q"]), "K": len(r["pi"]), "layout": r.get("layout", 0)}
 
 
 # ------------------------------------------------------------------ protocol entry points
@@ -514,7 +556,7 @@ def _shrink(c, key):
             p2 /= p2.sum()
             if float(p2.min()) < CUTOFF * (1 - 1e-6):
                 continue
-            c2 = {"label": best["label"], "lam": best["lam"], "pi": tensor_hex(p2), "q": tensor_hex(q[keep]), "K": len(keep)}
+            c2 = {"label": best["label"], "lam": best["lam"], "pi": tensor_hex(p2), "q": tensor_hex(q[keep]), "K": len(keep), "layout": best.get("layout", 0)}
             judge([run_case(c2)])
             if any(k == key for k, _ in problems(c2)):
                 best = c2
